@@ -25,6 +25,10 @@ func main() {
 		props.C05SchedWorker(os.Args[3:])
 		return
 	}
+	if id == "C18" && os.Args[2] == "--sched" {
+		props.C18SchedWorker(os.Args[3:])
+		return
+	}
 	if id == "C04" && os.Args[2] == "--one" {
 		props.C04One(os.Args[3:])
 		return
